@@ -15,7 +15,7 @@ CFG = {
             "through the public accessors (GetCanonicalHash 0..max+2, GetTd, GetTxLookupEntry/GetTransaction/GetReceipt of every "
             "transaction of the tree, GetBlock/GetHeader/GetBody/GetReceiptsByHash, head pointers, state availability; every node also BY HASH — GetHeaderByHash/GetBlockByHash/GetBody/GetTdByHash/HasHeader/HasBlock must agree with the (hash, number) accessors, and nodes are queried by hash BEFORE they are imported: queries are pure) and (a) judged "
             "directly against the statement of C03, (b) compared field by field with the Lean model replaying the same operations "
-            "(every coin resolution followed, filtered by the observed state). 35% of the trees are 'race' trees (long light branch, "
+            "(coin resolutions followed per import: all up to 6 block calls / 8 headers, beyond that every resolution with at most 3 heads — proved complete for <= 3 exact ties, coin_enumeration_complete / coin_only_read_at_tie; an outcome outside is reported as too-many-ties; filtered by the observed state). 35% of the trees are 'race' trees (long light branch, "
             "shorter heavier branch) so that reorganisations to a SHORTER chain are frequent; 33 MIXED histories per run feed one chain through InsertChain and InsertHeaderChain (replayed on the composed "
             "model XSt, full dump compared; incl. directed 'shorter heavier header fork, then the block chain is extended' and random block-head extensions after header batches); directed successive rewinds on a restarted pruning node (rewind onto a stateless block, then deeper); one extra history per run imports 138 "
             "blocks on a pruning node with the default-sized cache (state garbage collection during import) and is judged directly "
